@@ -68,7 +68,13 @@ func (e *Engine) timeNow(g *Term) *StructV {
 	if e.lastNowSec != nil && !e.spec.NonMonotonicClock {
 		e.assume(Implies(g, Not(timeLess(sec, ns, e.lastNowSec, e.lastNowNs))))
 	}
-	e.lastNowSec, e.lastNowNs = sec, ns
+	// the "previous reading" is path dependent: a reading in a branch that is
+	// not taken must not break the chain
+	if e.lastNowSec != nil {
+		e.lastNowSec, e.lastNowNs = Ite(g, sec, e.lastNowSec), Ite(g, ns, e.lastNowNs)
+	} else {
+		e.lastNowSec, e.lastNowNs = sec, ns
+	}
 	return mkTime(sec, ns)
 }
 
